@@ -5,6 +5,8 @@ CONSTANTS
   FixLeave = TRUE
   FixWrap = FALSE
   MaxTry = 2
+  TrackCov = FALSE
+  Goal = "none"
   MCLayout <- LayR4
   InitMembers = {}
   Joiners = {}
